@@ -111,7 +111,8 @@ class GtfLeg(object):
             d = {"style": "gtf", "sep": draw(st.sampled_from(tm.SEPS)), "trailing": draw(st.booleans()), "repeated": False}
             return {"genes": genes, "order": order, "dialect": d, "keys": keys, "custom": custom,
                     "disable_genes": draw(st.booleans()), "disable_transcripts": draw(st.booleans()),
-                    "file_db": draw(st.integers(0, 3)) == 0, "split_update": draw(st.integers(0, 3)) == 0}
+                    "file_db": draw(st.integers(0, 3)) == 0, "split_update": draw(st.integers(0, 3)) == 0,
+                    "late_exons": draw(st.integers(0, 2)) == 0}
 
         return case().filter(lambda c: nlines(c["genes"]) >= 1 and any(
             s["ft"] == "EXON" for g in c["genes"] for t in g["transcripts"] for s in t["subs"]))
@@ -124,11 +125,21 @@ class GtfLeg(object):
         labels = ["infer genes=%s transcripts=%s" % (not case["disable_genes"], not case["disable_transcripts"])]
         if case.get("split_update") and len(case["genes"]) >= 2 and not case["custom"]:
             labels.append("last-gene-through-update")
+        elif case.get("late_exons") and not case["custom"]:
+            labels.append("exons-arrive-through-update")
         for name, flag in (("multi-transcript", multi_tx), ("shuffled", shuffled), ("explicit-line", explicit),
                            ("exonless-transcript", exonless), ("custom-keys", case["custom"])):
             if flag:
                 labels.append(name)
         return multi_tx or shuffled or explicit or exonless, labels
+
+    @staticmethod
+    def _late_target(case, model):
+        for g in model["genes"].values():
+            with_exons = [t for t in g["tx"] if model["tx"][t]["exons"]]
+            if len(with_exons) == 1 and len(g["tx"]) >= 1:
+                return with_exons[0]
+        return None
 
     def check(self, case, ctx):
         import gffutils
@@ -157,6 +168,23 @@ class GtfLeg(object):
             p2 = ctx.write("a2.gtf", "\n".join(lines[k:]) + "\n")
             db = gffutils.create_db(p1, dbfn, keep_order=True, **kw)
             db.update(p2, make_backup=False, **kw)
+        elif case.get("late_exons") and not case["custom"] and self._late_target(case, model) is not None:
+            # the exon lines of one transcript (the only exon-bearing transcript of its gene) arrive later through
+            # update(): until then neither it nor its gene can be inferred, afterwards both must be
+            tid = self._late_target(case, model)
+            late = [r for r in recs if r["tx"] == tid and r["kind"] == "sub" and r["cols"][2] == sub]
+            early = [r for r in recs if not (r["tx"] == tid and r["kind"] == "sub" and r["cols"][2] == sub)]
+            if early and late:
+                recs = early + late
+                lines = [tm.render_line(r, d) for r in recs]
+                p1 = ctx.write("a1.gtf", "\n".join(lines[:len(early)]) + "\n")
+                p2 = ctx.write("a2.gtf", "\n".join(lines[len(early):]) + "\n")
+                db = gffutils.create_db(p1, dbfn, keep_order=True, **kw)
+                db.update(p2, make_backup=False, **kw)
+                split = True
+            else:
+                split = False
+                db = gffutils.create_db(path, dbfn, keep_order=True, **kw)
         else:
             split = False
             db = gffutils.create_db(path, dbfn, keep_order=True, **kw)
